@@ -1,6 +1,6 @@
 """C13 - doc strings are opaque: verbatim content, closed only by their own delimiter.
 
-Document models (E5, doc-string family): content = every sequence of <= n lines over 14 line forms (every kind of
+Document models (E5, doc-string family): content = every sequence of <= n lines over 18 line forms (every kind of
 Gherkin-looking line, blank, whitespace-only, the other delimiter, the escaped active and the escaped other delimiter,
 text with trailing blanks) x each line at an indentation less than / equal to / greater than the delimiter's x both
 delimiters x delimiter indentation {0, 2, 5} x media type {none, json, 'a b'} x host {background, scenario, outline,
@@ -17,7 +17,9 @@ from .. import impl as I
 from .c03 import project, first_diff
 
 S = M.step
-FORMS = ['Feature: x', 'Scenario: x', 'Examples:', 'Given x', '@t', '# c', '#language: fr', '| a |', '', '   ', 'OTHER', 'ESC', 'ESC-OTHER', 'text  ', 'MID']
+FORMS = ['Feature: x', 'Scenario: x', 'Examples:', 'Given x', '@t', '# c', '#language: fr', '| a |', '', '   ', 'OTHER', 'ESC', 'ESC-OTHER', 'text  ', 'MID',
+         # look-alikes that would be *faulty* lines outside a doc string (tag with a blank, unknown language, unfinished cell escape)
+         '@Override public', '#language: no-such', '| a \\']
 RELS = ['less', 'equal', 'more']
 DELIMS = ['"""', '```']
 INDENTS = [0, 2, 5]
